@@ -89,6 +89,9 @@ type Entry struct {
 	Pol  Pol    `json:"pol"`
 	HCL  string `json:"hcl"`
 	Raw  bool   `json:"raw,omitempty"` // HCL is hand-written (syntax-error stream): Pol is meaningless
+	// the other fields ACL.PolicySet accepts (store stream); Name "" means pol-<ID>
+	Name string `json:"name,omitempty"`
+	Desc string `json:"desc,omitempty"`
 }
 
 type Tok struct {
@@ -110,6 +113,7 @@ type Case struct {
 	Fails  []Fail   `json:"fails,omitempty"`        // one entry per failing clause (first occurrence)
 	Sig    *Sig     `json:"sig,omitempty"`
 	Shrunk *Case    `json:"shrunk,omitempty"`
+	noAmb  bool
 }
 
 // one failing oracle clause of a case
@@ -313,8 +317,12 @@ func newCaches(size int) *structs.ACLCaches {
 func aclPolicy(e *Entry) *structs.ACLPolicy {
 	p := &structs.ACLPolicy{
 		ID:    fmt.Sprintf("%08x-0000-0000-0000-000000000000", e.ID),
-		Name:  fmt.Sprintf("pol-%d", e.ID),
-		Rules: e.HCL,
+		Name:        fmt.Sprintf("pol-%d", e.ID),
+		Description: e.Desc,
+		Rules:       e.HCL,
+	}
+	if e.Name != "" {
+		p.Name = e.Name
 	}
 	p.ModifyIndex = uint64(e.Idx)
 	p.SetHash(true)
@@ -693,6 +701,61 @@ func dname(d string) string {
 	return d
 }
 
+const ambKind = "content-hash-concatenation-ambiguity"
+
+// Two pool entries with the same real content hash but different rules: the parsed-policy cache
+// cannot tell them apart.  Every clause that fails on the case but no longer fails once the
+// entries are told apart (the descriptions get a distinguishing suffix, which changes nothing but
+// the hash) is a consequence of exactly that and is relabelled.
+func relabelHashAmbiguity(c *Case, prio map[string]int) {
+	if c.noAmb || len(c.Fails) == 0 {
+		return
+	}
+	amb := false
+	for i := range c.Pool {
+		for j := range c.Pool {
+			if c.Pool[j].Hash == c.Pool[i].Hash && c.Pool[j].HCL != c.Pool[i].HCL {
+				amb = true
+			}
+		}
+	}
+	if !amb {
+		return
+	}
+	d := cloneCase(c)
+	d.noAmb = true
+	for j := range d.Pool {
+		d.Pool[j].Desc += fmt.Sprintf("|#%d", j)
+	}
+	rerender(d)
+	run(d)
+	still := map[string]bool{}
+	for _, f := range d.Fails {
+		still[f.Sig.Kind] = true
+	}
+	var fails []Fail
+	seen := map[string]bool{}
+	for _, f := range c.Fails {
+		if !still[f.Sig.Kind] {
+			f.Reason = ambKind + " (" + f.Sig.Kind + "): " + f.Reason
+			f.Sig.Kind = ambKind
+		}
+		if !seen[f.Sig.Kind] {
+			seen[f.Sig.Kind] = true
+			fails = append(fails, f)
+		}
+	}
+	c.Fails, c.Kinds, c.Sig, c.Oracle = fails, nil, nil, ""
+	for i := range c.Fails {
+		f := &c.Fails[i]
+		c.Kinds = append(c.Kinds, f.Sig.Kind)
+		if c.Sig == nil || rankOf(prio, f.Sig.Kind) < rankOf(prio, c.Sig.Kind) {
+			sig := f.Sig
+			c.Sig, c.Oracle = &sig, f.Reason
+		}
+	}
+}
+
 func firstDiff(a, b string) int {
 	for i := 0; i < len(a) && i < len(b); i++ {
 		if a[i] != b[i] {
@@ -730,7 +793,7 @@ func run(c *Case) {
 	c.Oracle, c.Sig = "", nil
 	// every clause that fails is recorded once (first occurrence); the case's verdict is the
 	// most property-level one (a wrong decision before a wrong internal state)
-	prio := map[string]int{"cache-dependence": 1, "cache-dependence-error": 2, "semantics": 3, "noncanonical-case-precedence": 4,
+	prio := map[string]int{"cache-dependence": 1, ambKind: 1, "cache-dependence-error": 2, "semantics": 3, "noncanonical-case-precedence": 4,
 		"order-dependence": 5, "order-dependence-error": 6, "enforce-dispatch": 7, "cached-policy-mutated": 8, "compile-error-on-valid-policies": 9}
 	c.Kinds, c.Fails = nil, nil
 	fail := func(kind string, ti int, i int, got, want string, nc bool) {
@@ -865,6 +928,7 @@ func run(c *Case) {
 			}
 		}
 	}
+	relabelHashAmbiguity(c, prio)
 }
 
 // with every access string lowercased, does the implementation follow the documented rule?
@@ -970,14 +1034,16 @@ func cloneCase(c *Case) *Case {
 }
 
 func rerender(c *Case) {
-	// content hashes: equal (id, text) <=> equal hash
+	// content hashes: the model's number stands for the REAL ACLPolicy.Hash (SetHash over name,
+	// description, rules, datacenters), so two entries share a number iff the implementation's
+	// parsed-policy cache cannot tell them apart
 	seen := map[string]int{}
 	for i := range c.Pool {
 		e := &c.Pool[i]
 		if !e.Raw {
 			e.HCL = render(e.Pol)
 		}
-		k := fmt.Sprintf("%d|%s", e.ID, e.HCL)
+		k := fmt.Sprintf("%x", aclPolicy(e).Hash)
 		if _, ok := seen[k]; !ok {
 			seen[k] = len(seen) + 1
 		}
@@ -1222,6 +1288,48 @@ func (g *gen) worldCase(id int) *Case {
 	return c
 }
 
+// policies as the store holds them: name, description, rules.  Includes identical rules under
+// different IDs, identical (name, description, rules) under different IDs, and pairs
+// A = (n, d, R1+R2), B = (n+d, R1, R2) whose name+description+rules concatenations coincide.
+func (g *gen) storeCase(id int) *Case {
+	c := &Case{ID: id, Stream: "store", Names: queryNames, Cache: 64}
+	rulesOnly := func() Pol {
+		p := Pol{}
+		for i := 1 + g.r.Intn(2); i > 0; i-- {
+			p.Rules = append(p.Rules, g.rule(false, []int{KKey, KNode, KService}))
+		}
+		return p
+	}
+	r1, r2 := rulesOnly(), rulesOnly()
+	both := Pol{Rules: append(append([]Rule{}, r1.Rules...), r2.Rules...)}
+	n, d := g.pick2([]string{"p", "pol", "a-1"}), g.pick2([]string{"q", "x9", "b"})
+	switch g.r.Intn(3) {
+	case 0: // concatenations coincide
+		c.Pool = append(c.Pool, Entry{ID: 1, Idx: 1, Name: n, Desc: d, Pol: both}, Entry{ID: 2, Idx: 1, Name: n + d, Desc: render(r1), Pol: r2})
+	case 1: // same rules, different IDs and names
+		c.Pool = append(c.Pool, Entry{ID: 1, Idx: 1, Name: n, Desc: d, Pol: both}, Entry{ID: 2, Idx: 1, Name: n + "2", Desc: d, Pol: both})
+	case 2: // everything but the ID equal: the parsed policy is legitimately shared
+		c.Pool = append(c.Pool, Entry{ID: 1, Idx: 1, Name: n, Desc: d, Pol: both}, Entry{ID: 2, Idx: 1, Name: n, Desc: d, Pol: both})
+	}
+	c.Pool = append(c.Pool, Entry{ID: 3, Idx: 1, Name: "other", Desc: "", Pol: g.policy(false, allKinds)})
+	for _, idx := range [][]int{{0}, {1}, {1, 2}, {0, 2}, {1, 0}} {
+		if g.r.Intn(4) != 0 {
+			c.Toks = append(c.Toks, Tok{Idx: idx})
+		}
+	}
+	if g.r.Intn(2) == 0 {
+		for i, j := 0, len(c.Toks)-1; i < j; i, j = i+1, j-1 {
+			c.Toks[i], c.Toks[j] = c.Toks[j], c.Toks[i]
+		}
+	}
+	if len(c.Toks) == 0 {
+		c.Toks = []Tok{{Idx: []int{0}}, {Idx: []int{1}}}
+	}
+	return c
+}
+
+func (g *gen) pick2(xs []string) string { return xs[g.r.Intn(len(xs))] }
+
 // exhaustive small scope: every ordered pair of single-rule policies over one kind
 func exhaustive(id *int, kind int) []*Case {
 	var rules []Rule
@@ -1395,6 +1503,9 @@ func main() {
 	}
 	for i := 0; i < 20*scale; i++ {
 		add(g.worldCase(0))
+	}
+	for i := 0; i < 40*scale; i++ {
+		add(g.storeCase(0))
 	}
 	if *tier == "thorough" {
 		for _, k := range []int{KKey, KService, KNode} {
